@@ -24,12 +24,15 @@ VARIABLES l,      \* cursor into Trace
                   \* internal state (ref, tree, ctab), so a layout drift can never turn into a false alarm
           kvTreeOnly, \* keys whose last version change wrote no record (check_vhash; C02 adoption)
           kvCtab,     \* keys the collision table holds, as logged after the last Set / Get / Incr / Open (finding signatures)
-          kvUnprot    \* colliding keys whose last accepted write happened while NO key of their group was in that table
+          kvUnprot,   \* colliding keys whose last accepted write happened while NO key of their group was in that table
                       \* (such a key is not protected by the table: signature of finding F8a)
+          kvKf        \* key -> name of the listed finding whose aftermath the key is in ("" = none): set when a read of the key
+                      \* is excused by that finding, cleared by the next accepted set of the key (which overwrites whatever
+                      \* the store made of it); while set, further deviations of that key carry the same tag
 
 Trace == ndJsonDeserialize("trace.ndjson")
 
-tvars == <<l, obs, bad, drift, lead, sid, kv, kvTreeOnly, kvCtab, kvUnprot>>
+tvars == <<l, obs, bad, drift, lead, sid, kv, kvTreeOnly, kvCtab, kvUnprot, kvKf>>
 NoKv == [ver |-> 0, val |-> 0, flag |-> 0, vh |-> 0]
 NoAux == [ok |-> FALSE, b |-> 0, e |-> 0, why |-> ""]
 NoObs == [e |-> [a |-> "none", n |-> 0], pre |-> NoKv, aux |-> NoAux]
@@ -96,19 +99,21 @@ KfTag(k) == IF k \in DOMAIN gh.kf THEN "!" \o gh.kf[k] ELSE ""
 \*      is not yet in the collision table) as superseded and drops it.
 \* some other key of k's hash group has been deleted at some time (a tombstone record of it was written)
 SiblingTomb(k) == \E i \in 1..Len(recs) : recs[i].key # k /\ recs[i].key \in Keys /\ HashOf(recs[i].key) = HashOf(k) /\ recs[i].ver < 0
-KfTagR(k, afteropen, aftergc, res) ==
-  IF k \in DOMAIN gh.kf THEN "!" \o gh.kf[k]
+KfName(k, afteropen, aftergc, res) ==
+  IF kvKf[k] # "" THEN kvKf[k]
+  ELSE IF k \in DOMAIN gh.kf THEN gh.kf[k]
   \* (F18 is marked by the specification at the step where the pass drops the key's current record: gh.kf above)
   \* (F8a: the victim is not in the collision table and was last written while no key of its group was in it; a key
   \*  written into a DETECTED group joins the table and must be protected by it)
   ELSE IF Colliding(k) /\ kv[k].ver > 0 /\ afteropen /\ res = "miss" /\ k \notin kvCtab /\ k \in kvUnprot
-          /\ SiblingTomb(k) THEN "!F8a"       \* (a tombstone of a sibling exists: the replayed delete)
+          /\ SiblingTomb(k) THEN "F8a"       \* (a tombstone of a sibling exists: the replayed delete)
   \* F22: a pass meets records of a key that is NOT in the collision table although its group is: gc.go "guesses" that
   \* every such record is the newest; the first one copied (the oldest) enters the table and the key's later records are
   \* then dropped as superseded
-  ELSE IF Colliding(k) /\ aftergc /\ k \notin kvCtab /\ (\E k2 \in Keys : k2 # k /\ HashOf(k2) = HashOf(k) /\ k2 \in kvCtab) THEN "!F22"
-  ELSE IF Colliding(k) /\ conf.checkVHash THEN "!F8b"
+  ELSE IF Colliding(k) /\ aftergc /\ k \notin kvCtab /\ (\E k2 \in Keys : k2 # k /\ HashOf(k2) = HashOf(k) /\ k2 \in kvCtab) THEN "F22"
+  ELSE IF Colliding(k) /\ conf.checkVHash THEN "F8b"
   ELSE ""
+KfTagR(k, afteropen, aftergc, res) == LET nm == KfName(k, afteropen, aftergc, res) IN IF nm = "" THEN "" ELSE "!" \o nm
 
 Checks(o) ==
   LET e == o.e IN
@@ -128,7 +133,8 @@ Checks(o) ==
        LET live == o.pre.ver > 0
            num == live /\ o.pre.flag = FlagIncr /\ o.pre.val >= NumBase
            want == IF ~live THEN e.d ELSE IF num THEN o.pre.val - NumBase + e.d ELSE 0
-           tag == IF e.k \in DOMAIN gh.kf THEN "!" \o gh.kf[e.k]
+           tag == IF kvKf[e.k] # "" THEN "!" \o kvKf[e.k]
+                  ELSE IF e.k \in DOMAIN gh.kf THEN "!" \o gh.kf[e.k]
                   ELSE IF live /\ e.res = e.d /\ e.afteropen /\ e.k \notin kvCtab /\ e.k \in kvUnprot
                           /\ SiblingTomb(e.k) THEN "!F8a"
                   ELSE IF conf.checkVHash THEN "!F8b" ELSE "" IN
@@ -248,7 +254,10 @@ UnprotAfter(k, accepted) == IF ~accepted \/ ~Colliding(k) THEN kvUnprot
                             ELSE IF \E k2 \in Keys : HashOf(k2) = HashOf(k) /\ k2 \in kvCtab THEN kvUnprot \ {k} ELSE kvUnprot \cup {k}
 ReadOf(o, k) == IF o.e.a = "Get" THEN o.e ELSE o.e.reads[k]
 KB == LET X == ExcusedKeys(obs) IN IF X = {} THEN kv ELSE [k \in Keys |-> IF k \in X THEN FromRead(ReadOf(obs, k)) ELSE kv[k]]
-KvSame == kv' = KB /\ UNCHANGED <<kvTreeOnly, kvCtab, kvUnprot>>
+KfB == LET X == ExcusedKeys(obs) IN
+       IF X = {} THEN kvKf
+       ELSE [k \in Keys |-> IF k \in X THEN KfName(k, obs.e.afteropen, obs.e.aftergc, ReadOf(obs, k).res) ELSE kvKf[k]]
+KvSame == kv' = KB /\ kvKf' = KfB /\ UNCHANGED <<kvTreeOnly, kvCtab, kvUnprot>>
 
 \* cheap scalar state logged with every state-changing operation (head file, per-file size and number of buffered
 \* records, next-GC mark) against the specification's state after the same operation
@@ -281,7 +290,7 @@ TrReset ==
   /\ ResetMem(ConfOf(Ev.conf))
   /\ disk' = FreshDisk /\ recs' = <<>> /\ ref' = [k \in Keys |-> NoRef] /\ gh' = FreshGh
   /\ Settle /\ obs' = NoObs /\ sid' = Ev.sid
-  /\ kv' = [k \in Keys |-> NoKv] /\ kvTreeOnly' = {} /\ kvCtab' = {} /\ kvUnprot' = {}
+  /\ kv' = [k \in Keys |-> NoKv] /\ kvTreeOnly' = {} /\ kvCtab' = {} /\ kvUnprot' = {} /\ kvKf' = [k \in Keys |-> ""]
 
 Stuck(what) == /\ drift' = drift \cup Drift(obs) \cup {<<sid, Ev.n, what>>}
                /\ bad' = bad \cup Checks(obs) /\ lead' = lead \cup StateChecks(obs)
@@ -294,6 +303,7 @@ KvSetStep ==
      /\ kvTreeOnly' = (IF new = KB[Ev.k] THEN kvTreeOnly ELSE IF treeOnly THEN kvTreeOnly \cup {Ev.k} ELSE kvTreeOnly \ {Ev.k})
      /\ kvCtab' = CtabOf(Ev)
      /\ kvUnprot' = UnprotAfter(Ev.k, new # KB[Ev.k])
+     /\ kvKf' = IF new # KB[Ev.k] /\ Ev.rev >= 0 THEN [KfB EXCEPT ![Ev.k] = ""] ELSE KfB
 
 TrSet ==
   /\ IsEv("Set") /\ ~OthersBusy /\ Adv /\ sid' = sid
@@ -304,7 +314,7 @@ TrSet ==
        ELSE KvSame /\ Stuck("set-while-down")
 
 TrGet ==
-  /\ IsEv("Get") /\ ~OthersBusy /\ Adv /\ sid' = sid /\ kv' = KB /\ UNCHANGED <<kvTreeOnly, kvUnprot>> /\ kvCtab' = CtabOf(Ev)
+  /\ IsEv("Get") /\ ~OthersBusy /\ Adv /\ sid' = sid /\ kv' = KB /\ kvKf' = KfB /\ UNCHANGED <<kvTreeOnly, kvUnprot>> /\ kvCtab' = CtabOf(Ev)
   /\ IF up
        THEN R_Begin("c1", Ev.k) /\ Settle /\ obs' = [e |-> Ev, pre |-> KB[Ev.k], aux |-> NoAux]
        ELSE Stuck("get-while-down")
@@ -315,7 +325,7 @@ TrIncr ==
        THEN /\ kv' = [KB EXCEPT ![Ev.k] = KvAfterIncr(KB[Ev.k], Ev)]
             \* a refused incr (non-numeric old value) writes nothing: a tree-only version stays tree-only
             /\ kvTreeOnly' = (IF KvAfterIncr(KB[Ev.k], Ev) = KB[Ev.k] THEN kvTreeOnly ELSE kvTreeOnly \ {Ev.k}) /\ kvCtab' = CtabOf(Ev)
-            /\ kvUnprot' = UnprotAfter(Ev.k, KvAfterIncr(KB[Ev.k], Ev) # KB[Ev.k])
+            /\ kvUnprot' = UnprotAfter(Ev.k, KvAfterIncr(KB[Ev.k], Ev) # KB[Ev.k]) /\ kvKf' = KfB
             /\ I_Begin("c1", Ev.k, Ev.d, Ev.vh) /\ Settle /\ obs' = [e |-> Ev, pre |-> KB[Ev.k], aux |-> NoAux]
        ELSE KvSame /\ Stuck("incr-while-down")
 
@@ -354,7 +364,7 @@ KvOpenStep ==
               ELSE KB[k]]
   \* a tree-only version that this restart preserved (tree dump loaded) is still tree-only: a later rebuild may lose it
   /\ kvTreeOnly' = {k \in kvTreeOnly : k \in DOMAIN Ev.meta /\ Ev.meta[k] = KB[k].ver}
-  /\ kvCtab' = CtabOf(Ev) /\ UNCHANGED kvUnprot
+  /\ kvCtab' = CtabOf(Ev) /\ UNCHANGED kvUnprot /\ kvKf' = KfB
 
 TrOpen ==
   /\ IsEv("Open") /\ Quiet /\ Adv /\ sid' = sid
@@ -453,7 +463,7 @@ Silent == /\ UNCHANGED tvars
 
 TraceInit ==
   /\ l = 1 /\ obs = NoObs /\ bad = {} /\ drift = {} /\ lead = {} /\ sid = ""
-  /\ kv = [k \in Keys |-> NoKv] /\ kvTreeOnly = {} /\ kvCtab = {} /\ kvUnprot = {} /\ TLCSet(1, 1)
+  /\ kv = [k \in Keys |-> NoKv] /\ kvTreeOnly = {} /\ kvCtab = {} /\ kvUnprot = {} /\ kvKf = [k \in Keys |-> ""] /\ TLCSet(1, 1)
   /\ Init([hashOf |-> [k \in Keys |-> CHOOSE h \in HashIds : TRUE], rank |-> [k \in Keys |-> 0], fileMax |-> 4,
            splitCap |-> 2, checkVHash |-> FALSE, dumpEager |-> FALSE, bodyMaxBlk |-> 1, mut |-> {}])
 
